@@ -260,6 +260,7 @@ const preludeCore = `(declare-sort Str 0)
 (declare-fun flt_of_s ((_ BitVec 64)) Flt)
 (declare-fun flt_to_bv (Flt) (_ BitVec 64))
 (declare-datatypes ((OptBytes 0)) (((None) (Some (some_val Bytes)))))
+(define-sort Key () Bytes)
 `
 
 func (c *Ctx) buildQuery(o *Obligation, withModel bool) string {
